@@ -362,6 +362,82 @@ func c13BuildGraph(seqs []string, counts [][]int, samples []string, distance int
 	return g
 }
 
+// c13Exit: what the logrus ExitFunc of the harness throws (log.Fatal* inside the implementation).
+type c13Exit struct{}
+
+// c13Crash: an execution of the implementation made by the harness goroutine ended in a panic or a
+// log.Fatal; thrown by the runners of the command-level part and caught per data set.
+type c13Crash struct{ what string }
+
+// c13GoID: number of the calling goroutine (first line of its stack: "goroutine 17 [running]:").
+func c13GoID() string {
+	b := make([]byte, 64)
+	f := strings.Fields(string(b[:runtime.Stack(b, false)]))
+	if len(f) > 1 {
+		return f[1]
+	}
+	return "?"
+}
+
+// c13InstallExit makes a log.Fatal* of the implementation an outcome. In the goroutine of the harness it is thrown
+// as c13Exit, which the guards around the implementation calls (c13Try) report. In a goroutine the implementation
+// started (workers of BuildSeqGraph, of the iterators) no guard of the harness can catch it and os.Exit would end
+// the shard without a verdict: the violation is recorded, the shard writes what it has found and ends there.
+// (the same for a log.Panic*, which panics in the goroutine that calls it: a logrus hook sees it first)
+func c13InstallExit(r *verifkit.Result) {
+	n := c13Net{r, c13GoID()}
+	log.AddHook(n)
+	log.StandardLogger().ExitFunc = func(code int) {
+		n.end("log.Fatal", fmt.Sprintf("exit(%d)", code))
+		panic(c13Exit{})
+	}
+}
+
+type c13Net struct {
+	r       *verifkit.Result
+	harness string
+}
+
+func (n c13Net) Levels() []log.Level { return []log.Level{log.PanicLevel} }
+
+func (n c13Net) Fire(e *log.Entry) error {
+	n.end("log.Panic", e.Message)
+	return nil
+}
+
+func (n c13Net) end(what, msg string) {
+	if c13GoID() == n.harness {
+		return
+	}
+	stack := make([]byte, 3000)
+	stack = stack[:runtime.Stack(stack, false)]
+	n.r.Violate("obiclean/"+what+"-in-a-goroutine-of-the-implementation", fmt.Sprintf("%s %q in a goroutine started by the implementation; the shard stops here\n%s", what, msg, stack), nil)
+	n.r.Cap("a log.Fatal / log.Panic in a goroutine of the implementation ended a shard: its remaining cases were not run")
+	n.r.Write()
+	os.Exit(0)
+}
+
+// c13Try runs f (calls of the implementation made by this goroutine): a panic or a log.Fatal inside it
+// becomes a description instead of the end of the shard.
+func c13Try(f func()) (crash string) {
+	defer func() {
+		if x := recover(); x != nil {
+			switch e := x.(type) {
+			case c13Exit:
+				crash = "log.Fatal (exit)"
+			case c13Crash:
+				crash = e.what
+			case *log.Entry:
+				crash = "log.Panic: " + e.Message
+			default:
+				crash = fmt.Sprintf("panic: %v", x)
+			}
+		}
+	}()
+	f()
+	return ""
+}
+
 // c13BuildGraph1 is the single-sample convenience form: record i = seqs[i] with abundance counts[i] in sample "A".
 func c13BuildGraph1(seqs []string, counts []int, distance int, ratio float64, workers int) c13Graph {
 	cc := make([][]int, len(counts))
@@ -986,7 +1062,10 @@ func c13BeyondBound(a, b string, step int) (beyond, answered bool) {
 	if c13Lev(a, b) <= step {
 		return false, false
 	}
-	lcs, _ := obialign.FastLCSScore(obiseq.NewBioSequence("a", []byte(a), ""), obiseq.NewBioSequence("b", []byte(b), ""), step, nil)
+	lcs := -1
+	c13Try(func() {
+		lcs, _ = obialign.FastLCSScore(obiseq.NewBioSequence("a", []byte(a), ""), obiseq.NewBioSequence("b", []byte(b), ""), step, nil)
+	})
 	return true, lcs >= 0
 }
 
@@ -1057,6 +1136,7 @@ func TestVerifC13(t *testing.T) {
 
 	r := verifkit.New("C13")
 	defer r.Write()
+	c13InstallExit(r)
 	start := time.Now()
 
 	report := func(c c13Case, fs []c13Finding, dump string) {
@@ -1072,7 +1152,43 @@ func TestVerifC13(t *testing.T) {
 
 	// one evaluation of the exhaustive part: 1 worker; step by step, and (withCLI) end to end
 	evalExact := func(c c13Case, withCLI bool) {
-		g := c13BuildGraph(c.Seqs, c.Counts, c.Samples, c.Dist, c.Ratio, 1)
+		// vacuity counters: facts about the data set submitted (reference links and statuses, pairs within
+		// reach of a distance option > 1), not about the graph the implementation builds
+		if c13Default(c) {
+			refStatus, refFathers := c13Reference(c)
+			nlinks := 0
+			for k := range refStatus {
+				for i, st := range refStatus[k] {
+					if st != "" {
+						r.Count("default_setting_reference_status_"+st, 1)
+					}
+					nlinks += len(refFathers[k][i])
+				}
+			}
+			if nlinks > 0 {
+				r.Count("default_setting_cases_with_reference_links", 1)
+			}
+		}
+		if c.Dist >= 2 {
+			r.Count("cases_submitted(distance-option>1)", 1)
+			for k := range c.Samples {
+				for i := range c.Seqs {
+					for j := i + 1; j < len(c.Seqs); j++ {
+						if c.Counts[i][k] > 0 && c.Counts[j][k] > 0 && c.Counts[i][k] != c.Counts[j][k] {
+							if d := c13Lev(c.Seqs[i], c.Seqs[j]); d >= 2 && d <= c.Dist {
+								r.Count("pairs_submitted_at_distance_2..option_with_unequal_abundances", 1)
+							}
+						}
+					}
+				}
+			}
+		}
+		var g c13Graph
+		if crash := c13Try(func() { g = c13BuildGraph(c.Seqs, c.Counts, c.Samples, c.Dist, c.Ratio, 1) }); crash != "" {
+			r.Eval(1)
+			r.Violate("obiclean/step-by-step/crash", c13CaseString(c)+": the step-by-step execution (buildSamples, BuildSeqGraph, FilterGraphOnRatio, Mutation, annotateOBIClean) ends in "+crash, c)
+			return
+		}
 		r.Eval(1)
 		npairs := 0
 		for k := range c.Samples {
@@ -1089,14 +1205,19 @@ func TestVerifC13(t *testing.T) {
 		fs = append(fs, c13CheckGraph(c, g)...)
 		fs = append(fs, c13CheckRecs(c, g.Recs, "step-by-step")...)
 		if withCLI {
-			cli := c13RunCLI(c.Seqs, c.Counts, c.Samples, c.Dist, c.Ratio, 1)
+			var cli []c13Rec
+			crash := c13Try(func() { cli = c13RunCLI(c.Seqs, c.Counts, c.Samples, c.Dist, c.Ratio, 1) })
 			r.Eval(1)
 			r.Trans(int64(npairs))
 			r.Count("end_to_end_CLIOBIClean_runs", 1)
-			fs = append(fs, c13CheckRecs(c, cli, "CLIOBIClean")...)
-			if a, b := c13RecsString(g.Recs), c13RecsString(cli); a != b {
-				fs = append(fs, c13Finding{"obiclean/one-worker/two-executions-differ",
-					"annotations of the step-by-step execution and of CLIOBIClean differ (both 1 worker)\nCLIOBIClean:\n" + b})
+			if crash != "" {
+				fs = append(fs, c13Finding{"obiclean/CLIOBIClean/crash", "CLIOBIClean (1 worker) ends in " + crash})
+			} else {
+				fs = append(fs, c13CheckRecs(c, cli, "CLIOBIClean")...)
+				if a, b := c13RecsString(g.Recs), c13RecsString(cli); a != b {
+					fs = append(fs, c13Finding{"obiclean/one-worker/two-executions-differ",
+						"annotations of the step-by-step execution and of CLIOBIClean differ (both 1 worker)\nCLIOBIClean:\n" + b})
+				}
 			}
 		}
 		// what made the case interesting
@@ -1153,21 +1274,33 @@ func TestVerifC13(t *testing.T) {
 
 	// sampled part: native runs with several workers against the 1-worker graph
 	evalNative := func(c c13Case) {
-		ref := c13BuildGraph(c.Seqs, c.Counts, c.Samples, c.Dist, c.Ratio, 1).String()
+		cc := c
+		if len(cc.Seqs) > 12 {
+			cc.Seqs, cc.Counts = nil, nil // regenerated from the family name on replay
+		}
+		ref := ""
+		if crash := c13Try(func() { ref = c13BuildGraph(c.Seqs, c.Counts, c.Samples, c.Dist, c.Ratio, 1).String() }); crash != "" {
+			// the control run (1 worker) fails: a verdict on the tree; the comparisons that need it are skipped
+			r.Violate("obiclean/control-run/one-worker-graph/crash",
+				fmt.Sprintf("[%s] %d sequences distance=%d ratio=%v: the 1-worker step-by-step execution ends in %s", c.Family, len(c.Seqs), c.Dist, c.Ratio, crash), cc)
+			return
+		}
 		reps := c.Reps
 		if reps < 1 {
 			reps = 1
 		}
 		for rep := 0; rep < reps; rep++ {
-			got := c13BuildGraph(c.Seqs, c.Counts, c.Samples, c.Dist, c.Ratio, c.Workers).String()
+			got := ""
+			crash := c13Try(func() { got = c13BuildGraph(c.Seqs, c.Counts, c.Samples, c.Dist, c.Ratio, c.Workers).String() })
 			r.Count("sampled_native_runs", 1)
+			if crash != "" {
+				r.Violate("obiclean/native-run/crash",
+					fmt.Sprintf("[%s] %d sequences distance=%d ratio=%v: native run %d with %d workers ends in %s", c.Family, len(c.Seqs), c.Dist, c.Ratio, rep, c.Workers, crash), cc)
+				return
+			}
 			if got != ref {
 				r.Count("sampled_native_runs_differing", 1)
 				d := c13FirstDiff(ref, got)
-				cc := c
-				if len(cc.Seqs) > 12 {
-					cc.Seqs, cc.Counts = nil, nil // regenerated from the family name on replay
-				}
 				r.Violate("obiclean/graph-depends-on-schedule/native-run",
 					fmt.Sprintf("[%s] %d sequences distance=%d ratio=%v: native run %d with %d workers differs from the 1-worker graph (SAMPLED observation): %s",
 						c.Family, len(c.Seqs), c.Dist, c.Ratio, rep, c.Workers, d), cc)
@@ -1421,20 +1554,24 @@ func TestVerifC13(t *testing.T) {
 		r.Note("sampled native multi-worker part stopped early (time budget); the exhaustive 1-worker part is not affected")
 	}
 
-	r.RequireNonVacuous("default_setting_cases_with_edges")
-	r.RequireNonVacuous("edges_dist2")
-	r.RequireNonVacuous("soundness_edges_judged(distance-option>1)")
-	r.RequireNonVacuous("far_pairs_beyond_the_option_answered_by_the_kernel")
+	// guards on what the harness submits (reference model, edit distances of the data sets); what the
+	// implementation answers (edges, edges_dist2, status_*, ..._answered_by_the_kernel) stays as counters
+	r.RequireNonVacuous("default_setting_cases_with_reference_links")
+	r.RequireNonVacuous("pairs_submitted_at_distance_2..option_with_unequal_abundances")
+	r.RequireNonVacuous("cases_submitted(distance-option>1)")
+	r.RequireNonVacuous("far_pairs_beyond_the_distance_option")
 	r.RequireNonVacuous("far_pairs_within_the_distance_option")
-	r.RequireNonVacuous("status_h")
-	r.RequireNonVacuous("status_i")
-	r.RequireNonVacuous("status_s")
+	r.RequireNonVacuous("default_setting_reference_status_h")
+	r.RequireNonVacuous("default_setting_reference_status_i")
+	r.RequireNonVacuous("default_setting_reference_status_s")
 	r.RequireNonVacuous("end_to_end_CLIOBIClean_runs")
 	if r.Shard != 0 {
 		return
 	}
 	r.Sample(c13Case{Family: "chain3", Seqs: []string{"acgtta", "ccgtta", "ccgtt"}, Samples: []string{"A"}, Counts: [][]int{{3}, {2}, {1}}, Dist: 1, Ratio: 1})
-	r.Sample(map[string]any{"graph_of_previous_sample": strings.Split(c13BuildGraph1([]string{"acgtta", "ccgtta", "ccgtt"}, []int{3, 2, 1}, 1, 1, 1).String(), "\n")})
+	c13Try(func() {
+		r.Sample(map[string]any{"graph_of_previous_sample": strings.Split(c13BuildGraph1([]string{"acgtta", "ccgtta", "ccgtt"}, []int{3, 2, 1}, 1, 1, 1).String(), "\n")})
+	})
 }
 
 func c13FirstDiff(a, b string) string {
